@@ -114,3 +114,56 @@ Proof.
   rewrite firstn_app_exact, (to_signed_N_to_dec n Hn).
   do 2 f_equal. rewrite !app_length. cbn [length]. rewrite app_length. cbn [length]. lia.
 Qed.
+
+(* ---- decode::loose_header never panics: the slice input[kind_end+1..size_end] is never reversed ---- *)
+
+Lemma find_byte_spec b l : forall n, find_byte b l = Some n ->
+  exists a r, l = a ++ b :: r /\ length a = n /\ forallb (fun x => negb (beqb x b)) a = true.
+Proof.
+  induction l as [|x l IH]; cbn [find_byte]; intros n E; [discriminate|].
+  destruct (beqb x b) eqn:B.
+  - injection E as <-. apply beqb_eq in B. subst x. exists [], l. repeat split.
+  - destruct (find_byte b l) as [m|]; [|discriminate]. cbn [option_map] in E. injection E as <-.
+    destruct (IH m eq_refl) as (a & r & -> & La & Fa).
+    exists (x :: a), r. cbn [app length forallb]. rewrite B, Fa, La. repeat split.
+Qed.
+
+Lemma kind_from_bytes_inv s k : kind_from_bytes s = Some k -> s = kind_bytes k.
+Proof.
+  unfold kind_from_bytes. intros E.
+  destruct (bytes_eqb s (bs "tree")) eqn:E1; [apply bytes_eqb_eq in E1; injection E as <-; exact E1|].
+  destruct (bytes_eqb s (bs "blob")) eqn:E2; [apply bytes_eqb_eq in E2; injection E as <-; exact E2|].
+  destruct (bytes_eqb s (bs "commit")) eqn:E3; [apply bytes_eqb_eq in E3; injection E as <-; exact E3|].
+  destruct (bytes_eqb s (bs "tag")) eqn:E4; [apply bytes_eqb_eq in E4; injection E as <-; exact E4|].
+  discriminate.
+Qed.
+
+Lemma forallb_nth (P : byte -> bool) l i : forallb P l = true -> (i < length l)%nat -> P (nth i l x01) = true.
+Proof.
+  revert i. induction l as [|x l IH]; cbn [forallb length nth]; intros i F Hi; [lia|].
+  apply Bool.andb_true_iff in F. destruct F as [Fx Fl].
+  destruct i as [|i]; [exact Fx|]. apply IH; [exact Fl|lia].
+Qed.
+
+Lemma L_decode_never_panics input : decode_loose_header input <> Panic /\ decode_loose_header input <> OutOfFuel.
+Proof.
+  unfold decode_loose_header.
+  destruct (find_byte x20 input) as [ke|] eqn:E20; [|split; discriminate].
+  destruct (kind_from_bytes (firstn ke input)) as [k|] eqn:K; [|split; discriminate].
+  destruct (find_byte x00 input) as [se|] eqn:E00; [|split; discriminate].
+  destruct (Nat.ltb_spec se (ke + 1)) as [C|C].
+  - exfalso.
+    destruct (find_byte_spec _ _ _ E20) as (a & r & Hl & La & _).
+    destruct (find_byte_spec _ _ _ E00) as (a' & r' & Hl' & La' & _).
+    apply kind_from_bytes_inv in K.
+    assert (Ha : a = kind_bytes k).
+    { rewrite <- K, Hl, <- La. symmetry. apply firstn_app_exact. }
+    destruct (kind_free k) as (_ & K00 & _ & _). rewrite <- Ha in K00.
+    assert (N0 : nth se input x01 = x00).
+    { rewrite Hl', <- La', app_nth2, Nat.sub_diag by lia. reflexivity. }
+    destruct (Nat.eq_dec se ke) as [->|Ne].
+    + rewrite Hl, <- La, app_nth2, Nat.sub_diag in N0 by lia. cbn [nth] in N0. discriminate.
+    + rewrite Hl, app_nth1 in N0 by lia.
+      pose proof (forallb_nth _ a se K00 ltac:(lia)) as F. cbn beta in F. rewrite N0 in F. discriminate.
+  - destruct (to_signed _); split; discriminate.
+Qed.
